@@ -572,6 +572,17 @@ def claim_lockstep_top(cx, res, kf):
             if v != d:
                 return {"replayed": True, "observed": {"value": v, "datum": d},
                         "witness": {"kind": "parse", "input_hex": text.hex(), "opts": "default", "src": "slice", "api": "datum", "fast": True}}
+        # call histories: the same parser keeps being asked after an error (what each reader consumed before failing shows
+        # in what the following calls return)
+        for text in (b"(a . ) x 2", b"( . ) x 2", b"(a .) x 2", b"(a . ;c\n) x 2", b"#(a . ) x", b"(a]) x", b"[a) x", b"(a . b c) x", b"') x", b"(1 #) x",
+                     b"(\"s) x", b"#u8(1 2 300) x", b"#u8(a) x", b"(a . b . c) x y", b"#(1 . 2) x", b"(#\\bogus) x", b"(1.5.6) x", b"(a b", b"(((", b")))"):
+            for src in ("slice", "reader"):
+                v = RP.parse(text, "default", src, "valuec")
+                d = RP.parse(text, "default", src, "datumc")
+                res.replays += 2
+                if v != d:
+                    return {"replayed": True, "observed": {"value_calls": v, "datum_calls": d, "input": text.decode("latin-1")},
+                            "witness": {"kind": "parse", "input_hex": text.hex(), "opts": "default", "src": src, "api": "datumc", "fast": True}}
         return {"replayed": False}
     pairs = 0
     for x in ta:
